@@ -46,6 +46,10 @@ CLAIMED = {
           "Machine-checked proof of well-formedness/completeness for all inputs; model tied exactly (plans equal incl. annealing trajectory); Synthesizer-level check that a main column given by name or index (0 included) is honoured.",
           "CPython set iteration order replica validated, not proved (theorems hold for every order). Determinism = the model is a function; checked on the implementation by re-running.",
           "DESIGN.md §5 C13"),
+  "C06": ("Lean 4 theorems by induction over arbitrary schedules (any number of processes, any interleaving, crashes and I/O failures at any call): the published salt is absent or one complete 8-byte value, never changes once published, every returning run returns exactly it, never a short value; explicit salt verbatim + the real routine replayed under an interposed scheduler on a real temp dir against the Lean machine (every call a scheduling point; a switch / crash / failure at every point) + byte scans and a syntactic check of the blob writers",
+          "Machine-checked invariant over all schedules of the process/file machine; the machine is tied to the real function by replaying generated schedules (threads, module-global interposition, real file system) and comparing per-process outcome and final file; the property is also evaluated directly on the real outcomes.",
+          "File-system semantics (atomic no-overwrite link, private mkstemp names, loss of unflushed data) trusted. Secrecy clause: syntactic + byte scan only (partial).",
+          "DESIGN.md §5 C06"),
   "C07": ("Lean 4 theorems the schema/domain clauses are assembled from (well-formed plans cover every column exactly once, stitch columns = union, nulls only from the null range, strings are value-map entries or prefix*index, one row per unit) + exact correspondence of the plan, stitch and microdata models + Synthesizer.sample() run on generated tables of every type under every strategy with schema/dtype/domain checks",
           "Proof of the pieces for all inputs; the composition (pandas astype, scikit-learn scaler/RFECV, orchestration) is exercised end to end on every run: 1-7 columns, 1-400 rows, all kinds, nulls, with/without ids, all strategies incl. main column 0 and ML target. Totality of the whole pipeline is not a Lean theorem (partial).",
           "pandas/scikit-learn outside the model. Known finding: RecursionError for float values closer than ~2^-900 of the column range.",
